@@ -68,6 +68,8 @@ var errStuck = errors.New("engine did not process the message within the bound")
 // "cut" - never as a verdict - so a short bound only costs coverage.
 const realHandlerWait = 250 * time.Millisecond
 
+const realStuckWait = 3 * time.Second
+
 var errAutonomous = errors.New("the object under test made a transition of its own")
 
 // cutMemo remembers (automaton, role, state, symbol) steps whose handler blocked
@@ -177,7 +179,13 @@ func (e *eng) send(from agency, msg protocol.Message) error {
 
 // awaitTransition returns the next state-transition event of this engine.
 func (e *eng) awaitTransition() (protocol.VerifEvent, error) {
-	t := time.NewTimer(stepWait)
+	w := stepWait
+	if e.real {
+		// no verdict is ever drawn from a real object that does not react (it may have
+		// moved on by itself); the caller stops using it after the first time
+		w = realStuckWait
+	}
+	t := time.NewTimer(w)
 	defer t.Stop()
 	for {
 		select {
@@ -328,6 +336,7 @@ func driveTrace(b *binding, impl implAuto, role protocol.ProtocolRole, useReal b
 		if err != nil && useReal {
 			// a real object may have moved on by itself (auto-reply); not a verdict
 			res.cut = "real object did not process the message (state changed autonomously?)"
+			res.stuck = true
 			return res
 		}
 		if err != nil {
